@@ -11,6 +11,7 @@ import numpy as np
 import common
 from qfmt import Rq
 from rcases import cplx_stmt, real_stmt, tac
+from props import c15_extra
 
 TECHNIQUE = "Coq proof (field/lra/vm_compute) + Coq-Interval certified correspondence of every line shape with the code"
 
@@ -367,6 +368,8 @@ def run(ctx):
     ctx.log("particle cases", len(cases))
     cases += sympy_dom_cases(ctx, rnd, 2 if ctx.tier == "quick" else 10)
     cases += bwr_ls_cases(ctx, rnd, 10 if ctx.tier == "quick" else 60)
+    cases += c15_extra.cases(ctx, rnd, ctx.tier == "quick")  # BWR_LS2, MultiBWR
+    cases += c15_extra.known_cases(ctx)  # MultiBW = documented combination of constant-width BW (fixed in /repo 4a6337b)
     ctx.log("sympy cases", len(cases))
     ctx.evaluations += len(cases)
     for c in cases:
@@ -374,7 +377,7 @@ def run(ctx):
             ctx.distinct.add((c[3]["function"], str(c[3]["args"])))
     for c in cases[:: max(1, len(cases) // 5)]:
         ctx.sample({"case": c[0], "goal": c[1][:400], "meta": c[3]})
-    res = common.coq_cases(ctx, "shape", HEADER, [c[:3] for c in cases], per_file=12, case_timeout=40)
+    res = common.coq_cases(ctx, "shape", HEADER + c15_extra.EXTRA_HEADER, [c[:3] for c in cases], per_file=12, case_timeout=40)
     for cid, stmt, t, meta in cases:
         if res[cid] != "OK":
             fn = meta["function"]
@@ -388,7 +391,7 @@ def run(ctx):
                      inp=meta, site=fn, fingerprint=fn, failing_input=fi)
     return common.finish(ctx, technique=TECHNIQUE, extra_assumptions=[
         "real-number model; float rounding absorbed by rtol 1e-11 (1e-8..1e-9 where the code goes through tf complex sqrt)",
-        "models not covered: Kmatrix, LASS, FlatteGen, interpolation/spline particles, BWR_LS2 / MultiBWR (see DESIGN.md C15)"])
+        "models not covered: Kmatrix, LASS, FlatteGen, interpolation/spline particles (see DESIGN.md C15); MultiBWR: every sub-resonance's running width uses ONE q0 (the configured `mass`), i.e. it is the documented-by-code sum of BWR2 terms at a common q0, not a sum of independent BWRs (theorem C15_multibwr_sub_resonance_pole_refuted; the docstring gives no formula, observation O5)"])
 
 
 def replay(rep):
